@@ -132,6 +132,25 @@ def pairs():
             pp.create_line(net, 2, 3, 1.5, "L-full", parallel=1, df=1.); pp.create_line(net, 3, 2, 2.5, "L-full", parallel=2, df=.8)
     yield "create_line(s) from std type", "line", line_std
 
+    def line_std_list(net, batch):
+        pp.create_std_type(net, dict(LINE_TYPE), "L-full", element="line")
+        types = ["NAYY 4x150 SE", "L-full", "L-full", "NA2XS2Y 1x240 RM/25 12/20 kV"]        # with and without zero-sequence data
+        if batch:
+            pp.create_lines(net, [2, 3, 2, 3], [3, 2, 3, 2], [1.5, 2.5, 1., 2.], types)
+        else:
+            for k in range(4):
+                pp.create_line(net, [2, 3, 2, 3][k], [3, 2, 3, 2][k], [1.5, 2.5, 1., 2.][k], types[k])
+    yield "create_line(s) from a list of std types with and without zero-sequence data", "line", line_std_list
+
+    def shunts_permuted(net, batch):
+        # bus labels that are a permutation of the new shunt indices; voltage ratings taken from the buses
+        if batch:
+            pp.create_shunts(net, [1, 0, 2], q_mvar=[1., -2., .5], p_mw=[0., .1, 0.])
+        else:
+            for b_, q_, p_ in zip([1, 0, 2], [1., -2., .5], [0., .1, 0.]):
+                pp.create_shunt(net, b_, q_mvar=q_, p_mw=p_)
+    yield "create_shunt(s) with the rated voltage taken from the buses", "shunt", shunts_permuted
+
     def simple(single, batch, table, kws, nbus=2, bus_arg="buses"):
         def f(net, is_batch):
             if is_batch:
